@@ -438,3 +438,25 @@ package builder
 // - precision 0, so SetInt widens it to the integer's bit length and the value is exact; NewFloat
 // (precision 53) or SetPrec would round.
 //@ structural builder-bigfloat-from-integers: callees builder@builder.setBigFloatFromBigInt|builder.setPBigFloatFromBigInt|builder.setBigFloatFromInt|builder.setPBigFloatFromInt|builder.setBigFloatFromUint|builder.setPBigFloatFromUint into math/big: (*Float).SetInt (*Float).SetInt64 (*Float).SetUint64
+
+// Byte data handed to the built value is a COPY (C04): the decoders reuse their array buffers for
+// the next array, so a built []byte or Media.Data that aliased the event's data would be overwritten
+// later in the same document.
+//@ ghost lastSetBytes array[uint64]byte
+//@ ghost lastSetBytesArr uint64
+//@ ghost lastSetBytesLen int
+//@ extern reflect::(Value).SetBytes
+//@   modifies lastSetBytesArr, lastSetBytesLen
+//@   ensures lastSetBytesArr == x.arr && lastSetBytesLen == len(x)
+//@   may_panic
+//@ func (*mediaBuilder).BuildFromMedia
+//@   requires len(data) <= 0x1000000000 && allocated(data)
+//@   modifies lastValueOf, alloc, memall(uint8)
+//@   may_panic
+//@   ensures typeIs(lastValueOf, "types.Media") && len(payload(lastValueOf, "types.Media").Data) == len(data) && payload(lastValueOf, "types.Media").Data.arr != data.arr
+//@   ensures forall i int :: 0 <= i && i < len(data) ==> payload(lastValueOf, "types.Media").Data[i] == old(data[i])
+//@ func (*uint8SliceBuilder).BuildFromArray
+//@   requires len(value) <= 0x1000000000 && allocated(value)
+//@   modifies lastSetBytesArr, lastSetBytesLen, alloc, memall(uint8)
+//@   may_panic
+//@   ensures arrayType == events.ArrayTypeUint8 && lastSetBytesLen == len(value) && lastSetBytesArr != value.arr
